@@ -6,12 +6,6 @@ import (
 	zz "github.com/gogpu/naga/internal/zzverif"
 )
 
-func zzNameGX(id string) string {
-	s := zz.Str(id, 1)
-	zz.Assume(s[0] == 'g' || s[0] == 'x')
-	return s
-}
-
 // Forward references: a function that refers to a module-scope constant declared AFTER it must be
 // ordered after that constant, whatever local declarations shadow the name elsewhere in the
 // function (WGSL scoping: a local is not in scope in its own initialiser and goes out of scope
@@ -64,3 +58,5 @@ func ZZ_C08_dependency_order_forward_reference() {
 	}
 	zz.Reach("end")
 }
+
+func ZZ_C08_dependency_order_reference_sites() { zzDependencySites() }
